@@ -93,6 +93,19 @@ def gen_cases(chk):
                 bits = [f32b(x) if ty == 0 else f64b(x) for x in v]
                 cfg = "protectValueRange=YES;" + rng.choice(("szMode=SZ_BEST_SPEED", "szMode=SZ_BEST_COMPRESSION"))
                 cases.append("rt %x %s %s 0 %s %s 0 %s x:%s" % (ty, tup5(t), tup5(t), dbits(abs(base) * 1e-2), dbits(1e-3), cfg, ",".join("%x" % b for b in bits)))
+    # point-wise relative mode (accelerated and log path; the range protection is judged, the relative bound is C02's): positive fields with a tenth
+    # of the elements saturated at the maximum and a tenth floored at the minimum
+    for t in ((2000,), (40, 50), (10, 20, 12)):
+        n = 1
+        for v in t:
+            n *= v
+        for ty in (0, 1):
+            for r, cfgp in ((1e-2, "szMode=SZ_BEST_SPEED"), (1e-3, "-"), (1e-2, "szMode=SZ_BEST_SPEED;accelerate_pw_rel_compression=0")):
+                v = [min(100.0, max(0.5, 50.0 + 70.0 * math.sin(i * 0.011 + rng.random() * 0.01))) for i in range(n)]
+                if ty == 0:
+                    v = [struct.unpack("<f", struct.pack("<f", x))[0] for x in v]
+                bits = [f32b(x) if ty == 0 else f64b(x) for x in v]
+                cases.append("rt %x %s %s a 0 0 %s protectValueRange=YES;%s x:%s" % (ty, tup5(t), tup5(t), dbits(r), cfgp, ",".join("%x" % b for b in bits)))
     return cases
 
 
@@ -113,7 +126,7 @@ def run(chk):
             why = "round trip failed: " + r[:160]
         elif int(d["outside"], 16):
             why = "%d reconstructed elements outside [min, max] of the original" % int(d["outside"], 16)
-        elif int(d["viol"], 16):
+        elif int(d["viol"], 16) and c.split(" ")[4] != "a":
             why = "%d elements outside the bound (max error %g, e %g)" % (int(d["viol"], 16), dbl(d["maxerr"]), dbl(d["e"]))
         if why:
             cls = classes.classify(c, r) or classes.classify_extreme(c, r)
